@@ -24,6 +24,10 @@ SQRT = lambda x: H.UF1("sqrt", x)
 POW = lambda x, y: H.UF2("pow", x, y)
 
 
+from ..xcheck import XCheck
+
+XC = XCheck()
+
 def mul(*xs):
     r = Fraction(1)
     for x in xs:
@@ -311,6 +315,7 @@ def _analyse(name, fmt, model, mk, user, tier, res):
         nm = f"{name}:k[{i}] {'+'.join(r['reactants'])} code {r['code']!r}"
         key = f"{fmt}:{model}:code={r['code']!r}:{sp}"
         rr = str(s.check(z3.And(kk != ref, kk != kin)))
+        XC.sample(s, [z3.And(kk != ref, kk != kin)], rr, nm)
         if rr == "unsat":
             res["ok"].append(nm)
             if len(res["samples"]) < 2:
@@ -386,12 +391,21 @@ def refuse(name, fmt, model, mk):
     return res
 
 
-def _work(a):
+def _work_inner(a):
     if a[0] == "refuse":
         n, f, m, mk = REFUSE[a[1]]
         return refuse(n, f, m, mk)
     n, f, m, mk, u = CASES[a[1]]
     return analyse(n, f, m, mk, u, a[2])
+
+
+def _work(a):
+    tier = a[-1] if isinstance(a[-1], str) and a[-1] in ("quick", "thorough") else next((x for x in a if x in ("quick", "thorough")), "quick")
+    XC.__init__(every=15 if tier == "thorough" else 40, first=1, cap=10 if tier == "thorough" else 3)
+    r = _work_inner(a)
+    if isinstance(r, dict):
+        r["xcheck"] = XC.summary()
+    return r
 
 
 def main(pid, tier):
@@ -406,6 +420,7 @@ def main(pid, tier):
         chk.solver_s += r["solver_s"]
         chk.replays_done += r["replays"]
         chk.functions.update(r["functions"])
+        chk.xc.merge(r.get("xcheck"))
         for n in r["ok"]:
             chk.ok(n)
             chk.nontrivial.add(n)
